@@ -156,11 +156,19 @@ func drawInstall(ch *kernel.Chooser, forC16 bool) install {
 	}
 	in.kT, in.kS, in.kE = pick(), pick(), pick()
 	if forC16 {
+		// the questions are asked from statement and expression parties; usually both kinds are present, but a plugin
+		// set with only one of the two kinds is as legal (answers must not depend on which kinds are installed)
 		if in.kS == 0 {
 			in.kS = 1
 		}
 		if in.kE == 0 {
 			in.kE = 1
+		}
+		switch ch.Weighted(6, 1, 1) {
+		case 1:
+			in.kS = 0
+		case 2:
+			in.kE = 0
 		}
 	}
 	// registration order: a seeded interleaving of the three kinds
@@ -857,6 +865,20 @@ func genCfg(ch *kernel.Chooser, forC16, big bool) gen.Config {
 			if ch.Bool(1, 16) {
 				cfg.DeepNest = 100 + ch.Choose(450) // beyond any plausible fixed-size stack (64, 256, 1024 entries)
 			}
+			if ch.Bool(1, 3) {
+				// the outer levels are plain blocks: the first function of the chain is opened under that many blocks
+				cfg.DeepBlocksFirst = 1 + ch.Choose(cfg.DeepNest)
+				if ch.Bool(1, 3) {
+					// ... under more blocks than a machine word has bits
+					if cfg.DeepNest < 70 {
+						cfg.DeepNest = 70 + ch.Choose(40)
+					}
+					cfg.DeepBlocksFirst = 63 + ch.Choose(cfg.DeepNest-66)
+				}
+			} else if ch.Bool(1, 4) {
+				// the outer levels are functions, blocks only below them
+				cfg.DeepFuncsFirst = 1 + ch.Choose(cfg.DeepNest)
+			}
 		}
 	} else if ch.Bool(1, 40) {
 		cfg.DeepNest = 4 + ch.Choose(30)
@@ -982,8 +1004,15 @@ func (e *Engine) Run(prop string, ch *kernel.Chooser, st *kernel.Stats) kernel.R
 		return e.operatorScenario(ch, st)
 	}
 	forC16 := prop == "C16"
-	p := gen.Generate(ch, genCfg(ch, forC16, e.tier == "thorough"))
+	gcfg := genCfg(ch, forC16, e.tier == "thorough")
+	p := gen.Generate(ch, gcfg)
 	res := kernel.RunResult{Evals: 1}
+	if gcfg.DeepBlocksFirst >= 64 {
+		st.Inc("probe.first_function_under_ge64_plain_blocks")
+	}
+	if gcfg.DeepFuncsFirst >= 64 {
+		st.Inc("probe.ge64_functions_then_blocks_only")
+	}
 	// validate generator ground truth against the plain lexer and strict parser
 	plainToks, pan := xutil.LexAll(lexer.NewBuilder(), p.Text, len(p.Text)+8)
 	okTruth := pan == nil && len(plainToks) == len(p.Toks)+1
@@ -1087,6 +1116,13 @@ func (e *Engine) Run(prop string, ch *kernel.Chooser, st *kernel.Stats) kernel.R
 	// 1. reference run: exactly one pass-through observer of each kind
 	ref := &recorder{posIndex: posIndex, nTok: len(toks)}
 	refIn := install{kT: 1, kS: 1, kE: 1, order: []byte("TSE"), viaInstall: []bool{false, false, false}}
+	if forC16 && in.kS == 0 {
+		refIn = install{kT: 1, kE: 1, order: []byte("TE"), viaInstall: []bool{false, false}}
+		st.Inc("probe.no_statement_party_installed")
+	} else if forC16 && in.kE == 0 {
+		refIn = install{kT: 1, kS: 1, order: []byte("TS"), viaInstall: []bool{false, false}}
+		st.Inc("probe.no_expression_party_installed")
+	}
 	refOut := observe(build(refIn, m, ch, ref, kernel.NewStats()), text, ref)
 	_, refS := checkHistory(ref.events, 'S', 1)
 	_, refE := checkHistory(ref.events, 'E', 1)
@@ -1528,7 +1564,7 @@ func init() {
 		},
 		RequiredProbes: map[string][]string{
 			"C04": {"probe.reentrant_invocations", "probe.reentrant_at_depth_ge3", "probe.reentrant_party_before_passthrough_party", "probe.installed_via_plugin", "probe.malformed_with_errors_under_many_interceptors", "probe.eight_of_each_kind", "probe.builder_reused_for_another_parser", "probe.party_installed_between_two_builds", "probe.nested_parser_run_inside_interceptor", "probe.reentrant_via_specific_public_parse_function", "probe.plugin_uses_captured_builder", "probe.plugin_installs_nested_plugin", "fault.odd_prefix", "probe.statement_step_requested_through_public_ParseStatement", "probe.registered_operator_stands_in_for_a_builtin_one", "probe.operand_requested_through_ParseExpressionWithPrecedence"},
-			"C16": {"probe.depth_ge5", "probe.function_body_direct", "probe.funcexpr_in_call_argument", "probe.funcexpr_in_object_value", "probe.funcexpr_in_condition", "probe.final_state_checked_on_erroring_input", "probe.nested_parser_run_inside_interceptor", "probe.builder_reused_for_another_parser", "probe.bailout_recovered_by_outer_interceptor", "probe.bailout_thrown_inside_function_body", "probe.reentrant_via_ParseFunctionExpression", "probe.context_stack_depth_ge40", "probe.public_ParseStatement_inside_function_body", "probe.nested_parser_built_from_the_same_builder"},
+			"C16": {"probe.depth_ge5", "probe.function_body_direct", "probe.funcexpr_in_call_argument", "probe.funcexpr_in_object_value", "probe.funcexpr_in_condition", "probe.final_state_checked_on_erroring_input", "probe.nested_parser_run_inside_interceptor", "probe.builder_reused_for_another_parser", "probe.bailout_recovered_by_outer_interceptor", "probe.bailout_thrown_inside_function_body", "probe.reentrant_via_ParseFunctionExpression", "probe.context_stack_depth_ge40", "probe.public_ParseStatement_inside_function_body", "probe.nested_parser_built_from_the_same_builder", "probe.no_statement_party_installed", "probe.no_expression_party_installed", "probe.first_function_under_ge64_plain_blocks"},
 		},
 	})
 }
